@@ -158,7 +158,7 @@ theorem parse_clock_independent (ty : Ty) (fields : List Field) (input : Bytes) 
     parse ty fields input c1 = parse ty fields input c2 := by
   unfold parse
   rw [parseFields_clockFree ty c1 c2 fields _ hfree]
-  cases hp : parseFields ty c2 { s := input } fields with
+  cases hp : parseFields ty c2 (initSt ty input) fields with
   | error e => rfl
   | ok st =>
     simp only [bind, Except.bind]
